@@ -86,7 +86,10 @@ impl Vm {
                 return Err(ParserState::new(state.position().line_of()));
             }
         }
-        match rule {
+        // A grammar may define rules named like the non-keyword built-ins (ASCII_DIGIT,
+        // NEWLINE, ...); as in the generated parser, the grammar's definition wins.
+        let builtin = if self.rules.contains_key(rule) { "" } else { rule };
+        match builtin {
             "ANY" => return state.skip(1),
             "EOI" => return state.rule("EOI", |state| state.end_of_input()),
             "SOI" => return state.start_of_input(),
